@@ -7,3 +7,5 @@ import "github.com/TarsCloud/TarsGo/tars"
 const haveMsgIDHook = true
 
 func setMsgID(v int32) { tars.VerifSetMsgID(v) }
+
+func drawID(sp *tars.ServantProxy) int32 { return sp.VerifGenRequestID() }
